@@ -61,6 +61,13 @@ def run_model(script_path, timeout=120):
     except subprocess.TimeoutExpired:
         return -999, '', 'timeout'
 
+def run_judge(script_path, impl_out_path, timeout=120):
+    drv = os.path.join(BUILD, 'ml', 'model_driver')
+    r = subprocess.run([drv, '--judge', script_path, impl_out_path], capture_output=True, text=True, timeout=timeout)
+    blames = [l for l in r.stdout.split('\n') if l.startswith('BLAME')]
+    judged = [l for l in r.stdout.split('\n') if l.startswith('JUDGED')]
+    return r.returncode, blames, (int(judged[0].split()[1]) if judged else 0), r.stderr[-500:]
+
 def compare(impl_out, model_out):
     """returns None if equal, else dict describing the first difference"""
     a = impl_out.split('\n')
@@ -106,6 +113,20 @@ def run_case(args):
     rc_i, out_i, err_i = run_impl(binary, path)
     rc_m, out_m, err_m = run_model(path)
     res = dict(path=path, tag=tag)
+    if rc_i == 0 or out_i:
+        ip = path + '.impl'
+        with open(ip, 'w') as f:
+            f.write(out_i)
+        try:
+            jrc, blames, judged, jerr = run_judge(path, ip)
+        except Exception as e:
+            jrc, blames, judged, jerr = 1, [], 0, str(e)
+        os.unlink(ip)
+        res['judged'] = judged
+        res['blames'] = blames
+        if jrc != 0:
+            res['status'] = 'judge_error'; res['detail'] = jerr
+            return res
     if rc_m != 0:
         res['status'] = 'model_error'; res['detail'] = err_m[-500:]
         return res
@@ -120,6 +141,9 @@ def run_case(args):
     d = compare(out_i, out_m)
     if d is not None:
         res['status'] = 'mismatch'; res['detail'] = d
+        return res
+    if res.get('blames'):
+        res['status'] = 'blamed'
         return res
     res['status'] = 'ok'
     res['features'] = sorted(features(out_i))
